@@ -231,7 +231,8 @@ func c13Flush(cl *Client) {
 		return
 	}
 	done := make(chan struct{})
-	cl.Dump.DumpTo([]byte("sentinel"), c13SignalWriter{done})
+	d := cl.Dump
+	go d.DumpTo([]byte("sentinel"), c13SignalWriter{done}) // may block for ever when nobody drains the queue
 	wait := 2 * time.Second
 	if c13FlushTimeouts >= 3 { // delivery is broken: do not wait on every pair
 		wait = 10 * time.Millisecond
@@ -240,6 +241,19 @@ func c13Flush(cl *Client) {
 	case <-done:
 	case <-time.After(wait):
 		c13FlushTimeouts++
+	}
+}
+
+// c13StopDump switches the client-level dump off without risking to block on a full queue.
+func c13StopDump(cl *Client) {
+	if cl.Dump == nil {
+		return
+	}
+	done := make(chan struct{})
+	go func() { cl.DisableDumpAll(); close(done) }()
+	select {
+	case <-done:
+	case <-time.After(200 * time.Millisecond):
 	}
 }
 
@@ -962,6 +976,7 @@ type c13Pending struct {
 	seqOf            map[string]int    // token -> dumping goroutine: 0 request writer, 1 response head reader, 2 body reader
 	log              *c13Log
 	cl               *Client      // the dump-on client: its async queue is flushed before judging
+	cls              []*Client    // further clients of the run (clones)
 	outputs          map[int]bool // writer ids that are an Output() (separators allowed)
 	nontrivial       bool
 }
@@ -1200,11 +1215,13 @@ func c13Finish(t *testing.T, s *verifh.Session, pend []*c13Pending) {
 	}
 	time.Sleep(20 * time.Millisecond) // let write loops finish dumping the last piece they sent
 	for _, p := range pend {
+		all := p.cls
 		if p.cl != nil {
-			c13Flush(p.cl)
-			if p.cl.Dump != nil {
-				p.cl.DisableDumpAll()
-			}
+			all = append([]*Client{p.cl}, all...)
+		}
+		for _, cl := range all {
+			c13Flush(cl)
+			c13StopDump(cl)
 		}
 	}
 	for i, p := range pend {
